@@ -14,7 +14,7 @@ RULE = ("one run = one data width k, a list of data words and a slice [a,b) of f
         "every single flip at i in [a,b) and every pair (i,j), i in [a,b), j>i, are injected into the stored code word "
         "(parity bit included) and decoded by the real ECCDecoder; family 'disabled' checks enable=0 pass-through with "
         "single/double flips; family 'history' builds and sweeps 2-4 codecs of different widths one after the other in one process.  Data words: exhaustive for k<=6 (quick) / k<=10 (thorough), otherwise the linear basis "
-        "(zero, all-ones, unit vectors) plus seeded random words. Non-trivial = at least one double flip decoded; distinct = "
+        "(zero, all-ones, unit vectors - all of them up to 32 bits, eight spread positions beyond) plus seeded random words. Non-trivial = at least one double flip decoded; distinct = "
         "digest of (k, words, slice)")
 ASSUMPTIONS = [
     "the codecs are combinational: the time axis (store, flip, read back) belongs to the harness",
@@ -38,7 +38,9 @@ def m_n(k):
 def words_for(k, rng, tier, nrand):
     if k <= (6 if tier == "quick" else 10):
         return list(range(2 ** k)), True
-    ws = [0, (1 << k) - 1] + [1 << i for i in range(k)] + [rng.getrandbits(k) for _ in range(nrand)]
+    units = range(k) if k <= 32 else sorted({0, 1, 2, k // 3, k // 2, k - 3, k - 2, k - 1})       # (every unit vector up to 32 bits, a spread beyond: a wide
+    #                                                                                          sweep with all 128 unit vectors costs CPU-hours per width)
+    ws = [0, (1 << k) - 1] + [1 << i for i in units] + [rng.getrandbits(k) for _ in range(nrand)]
     return ws, False
 
 
